@@ -97,7 +97,9 @@ def features(ctx):
     core.tlc_ok(r, "MC_Features")
     ctx.add_tlc(r, "MC_Features_%d" % level, "configuration_enumeration")
     cfgs = [p for p in r.prints if isinstance(p, dict) and "base" in p]
-    shutil.copy(os.path.join(core.REPO, "Cargo.lock"), os.path.join(FEATURES, "Cargo.lock"))
+    # the lock file of the tree under test when it has one (it is not tracked by vek's repository), else the probe's own
+    if os.path.exists(os.path.join(core.REPO, "Cargo.lock")):
+        shutil.copy(os.path.join(core.REPO, "Cargo.lock"), os.path.join(FEATURES, "Cargo.lock"))
     nw = 8
     root = os.path.join(core.WORK, "feat")
     shutil.rmtree(root, ignore_errors=True)
